@@ -69,9 +69,81 @@ CHECKS = {
             'alternative record (adjoint trajectory or ValueError exactly when impossible); accumulation across repeated forward calls.',
             'Backward/postselect on pure states only (the library refuses mixed ones); bounded program length.',
             '3/C14'),
+    'C08': ('exhaustive enumeration of all stabilizer groups (isotropic subspaces) with all ordered bases x all subsystems x input formats on the real code vs dense partial-trace entropy',
+            'All 24 741 ordered independent commuting lists of N<=3 (and the empty list) x all 2^N subsystems x index list / tuple / int array / boolean mask; '
+            'entropy compared with the von Neumann entropy of the partial trace; separate check points for empty / whole system, pure complement symmetry, '
+            'generator independence per group, invariance under H/S/CNOT inside and outside the region; z2rank on all small binary matrices; thorough: all 1.96M '
+            'lists of N=4 with L<=3 and all 2295 Lagrangian subspaces; torch port N<=2 complete, N=4 capped.',
+            'Dense eigenvalue entropy is the oracle; N=4 L=4 uses every 24th ordered basis (capped, reported).',
+            '3/C08'),
+    'C09': ('exhaustive enumeration of gate programs x circuit configurations on the real code vs gate-by-gate application and reference automorphism product',
+            'All programs up to length 2 over 17 letters at N=3, length 3 over 12 letters at N=2, length 3 over a 7-letter sub-alphabet at N=3, length 2 at N=4 '
+            '(thorough: length 4 / 5); configurations {CliffordCircuit, Circuit} x {plain, layers compiled, compiled, copy, copy of compiled, composed at every split, '
+            'composed then compiled}; input = the complete Pauli group with 4 phases plus signed states of every rank; oracles: bit-exact sequential gate.forward and '
+            'independently the permutation of group elements derived from dense unitaries; locality per gate; structural layer invariant after every take/compose/copy; torch port.',
+            'Generic gates only on ascending qubit tuples; map-less random gates excluded; N<=4.',
+            '3/C09'),
+    'C10': ('exhaustive enumeration of gate programs x configurations: backward-after-forward and forward-after-backward identity on the complete Pauli group and states of every rank',
+            'Same program space and configurations as C09; two fresh objects per configuration: backward(forward(x)) == x, backward(x) equals the reference inverse '
+            'automorphism, forward(backward(x)) == x; strings, phases mod 4 and rank compared; gates specified by generator, forward map only, backward map only, named '
+            'constructor; bare, compiled, copied, in layers and one-gate circuits; torch port.',
+            'As C09.',
+            '3/C10'),
+    'C11': ('complete enumeration of the finite gate tables x placements x the whole Pauli group / all tableaux vs textbook unitaries',
+            'H,S,X,Y,Z and C(0..23) on every wire and CNOT on every ordered wire pair of N<=3 (4 thorough) applied to all 4*4^N operators and to all 34560 N=2 tableaux, '
+            'compared with U P U^dag from dense matrices and with the literal sentences of the statement; the 24 indexed maps are valid, pairwise distinct, equal to the '
+            'independently enumerated 1-qubit group, closed under compose and inverse (24x24 table); bad indices and wrong qubit counts are rejected.',
+            'Rejection is read as "any exception" (type recorded).',
+            '3/C11'),
+    'C13': ('differential exhaustive exploration: identical enumerated well-formed inputs through pyclifford and torchclifford, representations compared',
+            '24 legs: every shared kernel (acq, ipow, ps0, acq_mat, batch_dot, tokenize, combine, transform, rotate, map/state conversion, project, projection_trace, '
+            'expect, entropy, z2rank, z2inv, front, condense, diagonalize1/2, mask, binary_repr, aggregate) and the class layer (parsing, algebra, rotations, transforms '
+            'with masks, compose/inverse/embed, states, expectations, overlaps, constructors, gates/layers/circuits incl. compile/copy/compose, diagonalize) on complete '
+            'N<=2 domains (all 64x64 operand pairs, 720 tables x sign patterns or all 11520 maps, all tableaux in thorough) plus N=3 shapes.',
+            'pyclifford is the reference; measurement excluded (nondeterministic); dtypes/container types not compared; known divergences listed in known_findings.json by exact signature.',
+            '3/C13'),
+    'C15': ('exhaustive enumeration of expression trees over an atom pool (all ordered operand-type pairs x operators) on the real code vs dense matrices',
+            'Depth<=2 expression trees (thorough partly depth 3) over a 30-atom pool for N<=2 (Paulis with 4 phases incl. phased identity, monomials, polynomials with '
+            'repeated strings / unreduced products / empty, lists, numbers) x {+,-,*,/,@,neg,reduce,trace,to_qutip,casts,getitem}; balanced trees over a 9-atom core pool; '
+            'reduce on all polynomials of <=2 (3) terms from 80 term types with tiny coefficients and 5 tolerances; linearity of rotate_by/transform_by; torch port.',
+            'Unsupported operand combinations (TypeError/NotImplementedError) are not judged; pyclifford trace() phase defect is a known finding pinned by an existing test.',
+            '3/C15'),
+    'C16': ('stateless exhaustive exploration of the complete coin tree of the samplers (numba + numpy MT19937 scripted) with exact leaf counting',
+            'random_pair N<=3, random_clifford_map / random_pauli_map N<=2 over the joint numba x numpy coin tree (rejection rounds bounded, residual mass reported): every leaf '
+            'valid; within every coin-length class each of the 24 / 720x16 maps exactly equally often, sign coins a fair bijection independent of the table, exact '
+            'product : swap : entangling ratio; random states and rcc circuits valid on every leaf; map-less gates resample (two calls use disjoint coin segments and '
+            'realise all pairs); thorough: N=3 symplectic part (1 451 520 tables equally often); torch samplers through a scripted torch.randint seam.',
+            'Assumes MT19937 bits fair and independent; uniformity is exact per explored length class, rejection tails beyond the bound are unexplored mass (reported).',
+            '3/C16'),
+    'C17': ('exhaustive catalogue exploration: object kinds x public methods x small argument domains with full before/after snapshots and copy-mutate-reobserve histories',
+            'Every call snapshots receiver and arguments (all arrays, scalars, recursively through circuits/layers/gates/maps): copy() faithful and independent '
+            '(shares_memory, histories copy -> in-place ops on one side -> re-observe the other, both directions); queries leave all parties bit-identical; in-place '
+            'operations never change their arguments; gate memoisation accepted only if the new map is the reference inverse; Paulis, lists, polynomials, all N=1 and '
+            'every 5th N=2 map, every 10th N=2 tableau (thorough all), gates, layers, circuits, measurement circuits, module-level functions; torch port.',
+            'Views returned by -P, 1*P, slicing, as_list are by design and not flagged.',
+            '3/C17'),
+    'C18': ('exhaustive enumeration of operators x targets x modes, of all pure tableaux, and of commuting Hamiltonians on the real code vs reference rotation rule / dense matrices',
+            'diagonalize: all non-identity strings x +- x every target qubit x causal on/off for N<=3 (5 thorough), Pauli and PauliMonomial: exact +-Z on the target, '
+            'causal locality; kernels pauli_diagonalize1/2 on all strings / anticommuting pairs; all 11544 pure tableaux N<=2 (+N=3 BFS): forward gives |0..0>, backward '
+            're-encodes; SBRG on every ordered tuple of <=3 commuting strings N<=3: heff I/Z only, circ.forward(H) == heff as a matrix, spectra equal; arbitrary tuples: I/Z form; torch port.',
+            'Mixed input to diagonalize is only observed (statement covers pure states).',
+            '3/C18'),
+    'C19': ('stateless exhaustive exploration of sampler and measurement coin strings for sample / density_matrix / ClassicalShadow on the real code vs dense matrices',
+            'sample(L): all numpy coin strings, all 34560 N=2 tableaux for L=1 and one per density matrix for L<=2: Tr(rho P)=+1 exactly, uniform bijection onto the '
+            'group; density_matrix: every group element once with weight 2^-N, equals rho; ClassicalShadow: fixed and random (onsite, global, brickwall) circuits x base '
+            'states of all ranks and signs x all sampler and measurement coins (rejection bounded): snapshot valid, non-zero overlap, stabilized up to sign by the '
+            'back-evolved basis, base state bit-identical.',
+            'MT19937 fairness; rejection-free sampler coins for N=2 random circuits (explored mass reported).',
+            '3/C19'),
+    'C20': ('exhaustive enumeration of all strings x phases x description formats and of all small lists x index expressions on the real code vs a plain Python list model',
+            'All strings of N<=5 (6 thorough) x 4 phases x ~25 description forms (prefixes, code arrays with phase token at either end, dicts, tuples, arrays), '
+            'repr->parse, tokenize->parse, N, weight, negation and multiplication by +-1, +-i; all lists up to (N,L)=(1,3),(2,2),(3,1) x 13 paulis() container forms x '
+            'L/len/N/weight/iteration/repr/tokens x every int / slice / boolean mask / index array expression; torch port.',
+            'repr text only needs the right letters and a phase-denoting prefix; N=0 and wrong-length masks are outside the statement.',
+            '3/C20'),
 }
 
-NOT_BUILT_REASON = 'check not built yet in this session (planned: DESIGN.md section 3); model checking applies'
+NOT_BUILT_REASON = 'check not built yet (planned: DESIGN.md section 3); model checking applies'
 
 
 def main():
